@@ -59,21 +59,27 @@ End Ops.
 
 (* ---- observations --------------------------------------------------------------------------- *)
 (* a node as seen from Python: identity of the original object (tid), "is a replaced copy",
-   static inputs, successor tids, predecessor tids *)
-Definition onode := (positive * bool * list sval * list positive * list positive)%type.
+   static inputs, successors and predecessors as positions in the node list *)
+Definition onode := (positive * bool * list sval * list nat * list nat)%type.
 Definition o_tid (n : onode) : positive := match n with (t, _, _, _, _) => t end.
-Definition o_succ (n : onode) : list positive := match n with (_, _, _, s, _) => s end.
-Definition o_pred (n : onode) : list positive := match n with (_, _, _, _, p) => p end.
+Definition o_succ (n : onode) : list nat := match n with (_, _, _, s, _) => s end.
+Definition o_pred (n : onode) : list nat := match n with (_, _, _, _, p) => p end.
 Definition o_inputs (n : onode) : list sval := match n with (_, _, i, _, _) => i end.
 
+Fixpoint index_of (t : task) (l : list task) : nat :=
+  match l with [] => 0 | x :: tl => if task_eqb t x then 0 else S (index_of t tl) end.
+
 Definition obs_of (g : tgraph) : list onode :=
-  map (fun t => (tid t, negb (tgen t =? 0), tinputs t, map tid (succ g t), map tid (pred g t))) (nodes g).
+  map (fun t => (tid t, negb (tgen t =? 0), tinputs t,
+                 map (fun s => index_of s (nodes g)) (succ g t),
+                 map (fun p => index_of p (nodes g)) (pred g t))) (nodes g).
 
 Definition lpos_eqb := list_eqb Pos.eqb.
+Definition lnat_eqb := list_eqb Nat.eqb.
 Definition onode_eqb (a b : onode) : bool :=
   match a, b with
   | (t1, r1, i1, s1, p1), (t2, r2, i2, s2, p2) =>
-      Pos.eqb t1 t2 && Bool.eqb r1 r2 && list_eqb sval_eqb i1 i2 && lpos_eqb s1 s2 && lpos_eqb p1 p2
+      Pos.eqb t1 t2 && Bool.eqb r1 r2 && list_eqb sval_eqb i1 i2 && lnat_eqb s1 s2 && lnat_eqb p1 p2
   end.
 Definition obs_eqb := list_eqb onode_eqb.
 
@@ -121,8 +127,6 @@ Record case := mkCase {
 (* the pure test family: f(args...) returns (marker of f, args...) *)
 Definition fam_apply (f : positive) (args : list sval) : sval := STuple (SAtom f :: args).
 
-Fixpoint index_of (t : task) (l : list task) : nat :=
-  match l with [] => 0 | x :: tl => if task_eqb t x then 0 else S (index_of t tl) end.
 Definition ids_of (g : tgraph) (keys : list positive) (t : task) : positive :=
   nth (index_of t (nodes g)) keys 1%positive.
 
@@ -130,20 +134,23 @@ Definition tag (b : bool) (t : nat) : list nat := if b then [] else [t].
 
 (* ---- the declared workflow, rebuilt from the implementation's own Workflow object ------------ *)
 (* nodes in the order of wf.tasks, predecessor lists in that same order ("the order in which those
-   predecessor tasks entered the workflow"), the context prepended where the function asks for it *)
+   predecessor tasks entered the workflow"), the context prepended where the function asks for it.
+   The i-th node gets generation i so that all nodes are different. *)
+Fixpoint enum_from {X} (i : nat) (l : list X) : list (nat * X) :=
+  match l with [] => [] | x :: tl => (i, x) :: enum_from (S i) tl end.
+
 Definition declared (tasks : list task) (ctx : sval) (obs : list onode) : tgraph :=
-  let mk (n : onode) : task :=
-      let t := nth (Pos.to_nat (o_tid n) - 1) tasks dummy_task in
-      mkTask (tid t) 0 (tfun t) (if tctx t then ctx :: o_inputs n else o_inputs n) (tctx t) in
-  let ns := map mk obs in
-  let by_tid (i : positive) : list task := filter (fun t => Pos.eqb (tid t) i) ns in
-  let osucc (t : task) : list positive :=
-      flat_map (fun n => if Pos.eqb (o_tid n) (tid t) then o_succ n else []) obs in
-  mkG ns (fun t => flat_map by_tid (osucc t))
-         (fun t => filter (fun u => memp (tid t) (osucc u)) ns).
+  let mk (p : nat * onode) : task :=
+      let t := nth (Pos.to_nat (o_tid (snd p)) - 1) tasks dummy_task in
+      mkTask (tid t) (fst p) (tfun t) (if tctx t then ctx :: o_inputs (snd p) else o_inputs (snd p)) (tctx t) in
+  let ns := map mk (enum_from 0 obs) in
+  let osucc (t : task) : list nat := o_succ (nth (tgen t) obs (1%positive, false, [], [], [])) in
+  mkG ns (fun t => map (fun i => nth i ns dummy_task) (osucc t))
+         (fun t => filter (fun u => memn (tgen t) (osucc u)) ns).
 
 Definition edge_tids (obs : list onode) : list (positive * positive) :=
-  flat_map (fun n => map (fun s => (o_tid n, s)) (o_succ n)) obs.
+  let tid_at (i : nat) := o_tid (nth i obs (1%positive, false, [], [], [])) in
+  flat_map (fun n => map (fun s => (o_tid n, tid_at s)) (o_succ n)) obs.
 Definition pp_eqb (a b : positive * positive) : bool := Pos.eqb (fst a) (fst b) && Pos.eqb (snd a) (snd b).
 Definition subset_pp (a b : list (positive * positive)) : bool := forallb (fun x => existsb (pp_eqb x) b) a.
 Definition same_edges (a b : list onode) : bool :=
@@ -158,10 +165,12 @@ Fixpoint increasing (l : list nat) : bool :=
 Fixpoint pos_index (k : positive) (l : list positive) : nat :=
   match l with [] => 0 | x :: tl => if Pos.eqb k x then 0 else S (pos_index k tl) end.
 
-(* the trailing string arguments of a dict entry that are keys *)
-Definition key_args (keys : list positive) (v : sval) : list positive :=
+(* the last n arguments of a dict entry (the predecessor keys) as positions in the dict *)
+Definition pred_key_positions (d : dsk) (n : nat) (v : sval) : list nat :=
   match v with
-  | STuple (_ :: args) => flat_map (fun a => match a with SStr s => if memp s keys then [s] else [] | _ => [] end) args
+  | STuple (_ :: args) =>
+      flat_map (fun a => match a with SStr s => [pos_index s (dkeys d)] | _ => [length d] end)
+               (skipn (length args - n) args)
   | _ => []
   end.
 
@@ -195,7 +204,9 @@ Definition verdict (c : case) : list nat :=
   tag (same_tids (c_builder c) (c_wf c) && same_edges (c_builder c) (c_wf c)
        && lpos_eqb (map o_tid (c_builder c)) (map o_tid (c_wf c))) 14 ++
   tag (match c_dict c with
-       | Some d => forallb (fun kv => increasing (map (fun k => pos_index k (dkeys d)) (key_args (dkeys d) (snd kv)))) d
+       | Some d => forallb (fun kn => increasing (pred_key_positions d (length (o_pred (snd kn))) (snd (fst kn))))
+                           (combine d (c_prep c))
+                   && (length d =? length (c_prep c))
        | None => true
        end) 15 ++
   (* guards *)
